@@ -47,6 +47,53 @@ claim("C14", "Coq proof over the driver model with the clock as an arbitrary fun
       TRUST + " The real wall clock is an oracle: the theorem quantifies over all readings, the harness substitutes the `time` name in search/_stop_run/_times_tracker.",
       "DESIGN.md section 5, C14")
 
+DRV = ("The Gallina driver (search.py, _progress_bar, _results_manager, _memory, _times_tracker, _search_statistics, _stop_run) over an "
+       "ABSTRACT optimizer record, so the theorem covers all 22 optimizers; tied to /repo by D-units: real search() runs of rotating "
+       "optimizers under a virtual clock and logging objective, the model replaying the recorded proposals and compared on rows, "
+       "order, counters, times, clock reads, objective call log, best, memory dict. ")
+
+claim("C03", "Coq proof (loop invariant over an abstract optimizer, induction over call histories) + differential correspondence",
+      "Theorems C03_call_accounting / C03_call_history (Coq, closed): for every optimizer whose methods return (search = Ok), every "
+      "objective, clock and prior history, a call performs k <= N steps (k = N without stopping criteria), rows/pos_l/score_l/"
+      "eval_times/iter_times grow by exactly k, the first min(k, remaining inits, N) steps are initialisation steps, init+iteration "
+      "counters account for every row, 0 <= eval_time <= iter_time under a monotone clock; over any sequence of calls rows add up "
+      "and n_init_total = min(n_inits, total steps). " + DRV + "The 'completes without raising' half is per optimizer: the monitor "
+      "runs every optimizer over populations 1..12, N smaller than inits/population, degenerate spaces and call histories; "
+      "GA (population 2,3) and DE (population 1,2) raise: known findings F-D9a/F-D9b.",
+      TRUST + " 'Does not raise' is proved for the driver only; for the 22 algorithms it is monitored (exceptions are violations).",
+      "DESIGN.md section 5, C03")
+
+claim("C04", "Coq proof (trace + memory invariant over an abstract optimizer) + differential correspondence",
+      "Theorem C04_rows_faithful (Coq, closed): for every optimizer, deterministic objective, memory off/on/warm-started and prior "
+      "history, a call appends one row per step in order, and row i carries the values decoded from position i together with the "
+      "objective's result (score and every metric key) at exactly those values, or the warm-start dictionary's entry for that "
+      "position; nothing is dropped, duplicated or re-paired. " + DRV + "The monitor recomputes every row from the objective's "
+      "call log (tuple results, numpy/int/python scalars, call-index dependent objectives, revisits).",
+      TRUST + " Metric keys are assumed disjoint from parameter names and 'score' (a clash is overwritten by {**results, **para}).",
+      "DESIGN.md section 5, C04")
+
+claim("C05", "Coq proof (characterisation of the running best as first maximum) + exhaustive/differential correspondence",
+      "Theorems C05_best_is_first_max and C05_verbosity_paths_agree (Coq, closed): for every optimizer, objective and prior history, "
+      "best_score is never NaN, no row of the call is strictly better, best_value decodes the position of the FIRST row attaining "
+      "it (None only if every row is NaN), and the silent and tqdm update paths agree on (score_best, pos_best) for every input. "
+      + DRV + "K-unit: both ProgressBar.update paths exhaustively over sequences of {-inf,-1,0,2,+inf,NaN}. The monitor recomputes "
+      "the best from search_data per call (ties, non-finite, constraints, objective(best_para)) and pairs runs under two verbosity "
+      "settings.",
+      TRUST + " 'best_para is feasible / in space' rests on C01/C02 for the positions the optimizer emits.",
+      "DESIGN.md section 5, C05")
+
+claim("C06", "Coq proof (memory invariant; shared dictionary under every schedule by induction) + differential and schedule correspondence",
+      "Theorems (Coq, closed): C06_memory_cache_exact - per call with memory on, objective calls are pairwise distinct, never hit a "
+      "key of the initial dictionary, a revisit returns the stored result, memory_dict = initial ++ exactly the newly evaluated "
+      "positions with their results; C06_shared_memory_sound - for N processes and EVERY interleaving of atomic contains/get/set "
+      "operations no get fails, every reported score is objective(key) and stored, and every key was initial or evaluated by "
+      "somebody. " + DRV + "P-unit: the real Memory.memory wrapper run by 2-3 threads on one dictionary whose operations a "
+      "scheduler releases one at a time, against the model's small-step semantics on the same schedule (values, final dict, "
+      "evaluation multiset). Memory on/off pairs and real multi-process runs on a Manager dict are monitored.",
+      TRUST + " Atomicity of each DictProxy operation; 'identical to the memory=False run' is checked by paired runs (monitor), the "
+      "theorem gives that every memory answer equals the objective's value.",
+      "DESIGN.md section 5, C06")
+
 
 def main():
     props = [json.loads(l) for l in open(os.path.join(VERIF, "properties.jsonl"))]
